@@ -36,7 +36,7 @@ DESCRIBE = {
                     "mixture model excluded (quick)"],
 }
 KINDS = ["logistic_scalar", "logistic_diag", "logistic_diag_nosrc", "logistic_uni", "logistic_binary", "linear_diag", "linear_scalar", "linear_uni",
-         "joint_uni", "joint_multi", "joint_nosrc", "shared_speed", "mixture"]
+         "joint_uni", "joint_multi", "joint_nosrc", "joint_ev2", "shared_speed", "mixture"]
 
 
 def make_plan(seed: int, tier: str) -> dict:
